@@ -15,6 +15,7 @@ import re
 
 from ..prog import AnalysisError, ClassInfo, FuncInfo, dotted, unparse
 from ..match import pretty
+from .. import sem
 from . import secutil as SU
 from .secutil import norm
 
@@ -51,6 +52,70 @@ def kw_or_pos(call: ast.Call, name: str, pos: int):
     return call.args[pos] if pos < len(call.args) else None
 
 
+def show(e) -> str:
+    return pretty(unparse(e)) if e is not None else "<absent>"
+
+
+def src(s: str) -> ast.AST:
+    return ast.parse(s, mode="eval").body
+
+
+def bytes_params(fi) -> list:
+    a = fi.node.args
+    return [x.arg for x in a.posonlyargs + a.args + a.kwonlyargs if x.annotation is not None and dotted(x.annotation) == "bytes"]
+
+
+def enum_is(P, mod, e, enum_cls: str, member: str) -> bool:
+    v = P.try_fold(mod, e)
+    return isinstance(v, tuple) and len(v) == 3 and v[0] == "enum" and v[1].split(".")[-1] == enum_cls and v[2] == member
+
+
+def bind_call(callee: FuncInfo, call: ast.Call) -> dict:
+    """arguments of an in-repo call bound to the callee's parameter names"""
+    params = callee.params
+    off = 1 if callee.kind in ("method", "classmethod") and params else 0
+    out = {}
+    for i, a in enumerate(call.args):
+        if i + off < len(params):
+            out[params[i + off]] = a
+    for kw in call.keywords:
+        if kw.arg:
+            out[kw.arg] = kw.value
+    return out
+
+
+def bind_fields(ci: ClassInfo, call: ast.Call) -> dict:
+    """arguments of a dataclass construction bound to the field names"""
+    names = []
+    for c in reversed(ci.mro()):
+        for f, (ann, _) in c.fields.items():
+            if ann is not None and f not in names:
+                names.append(f)
+    out = {}
+    for i, a in enumerate(call.args):
+        if i < len(names):
+            out[names[i]] = a
+    for kw in call.keywords:
+        if kw.arg:
+            out[kw.arg] = kw.value
+    return out
+
+
+def access_path(e: ast.AST):
+    """(base expression, [('.', attr) | ('[', constant key)] from the base outwards)"""
+    steps = []
+    while True:
+        if isinstance(e, ast.Attribute):
+            steps.append((".", e.attr))
+            e = e.value
+        elif isinstance(e, ast.Subscript) and isinstance(e.slice, ast.Constant):
+            steps.append(("[", e.slice.value))
+            e = e.value
+        else:
+            break
+    return e, list(reversed(steps))
+
+
 def run(ctx):
     P = ctx.prog
     ctx.explanation = (
@@ -65,54 +130,70 @@ def run(ctx):
                     "histories of forged chains beyond trust-store closure (C09)"]
     router = P.cls(ROUTER)
     pch = P.func(f"{ROUTER}.process_common_header")
+    vf = P.func(f"{VS}.verify")
     # ---- (1),(2) dispatcher calls
     n = 0
     for m in router.methods.values():
         fl = ctx.flows.get(m)
+        rx = [p for p in bytes_params(m)]
         for c in P.calls_in(m):
             if pch not in [t for t in P.call_targets(m, c, count=False) if isinstance(t, FuncInfo)]:
                 continue
             n += 1
             st = fl.state_at(c)
-            conds = {norm(pretty(f.xkey)): f.pol for f in st.facts if f.kind == "cond"}
-            insecure = conds.get("self.mib.itsGnSecurity==GnSecurity.ENABLED") is False
-            vfact = [k for k, v in conds.items() if v and re.fullmatch(
-                r"self\.verify_service\.verify\(SNVERIFYRequest\(.*\)\)\.report==ReportVerify\.SUCCESS", k)]
+            fs = sem.facts_of_state(st)
             loc = f"{m.module.rel}:{c.lineno}"
-            if vfact:
+            # a must-fact `<verify service>.verify(<request>).report == ReportVerify.SUCCESS`
+            vcall = None
+            for f in st.facts:
+                if f.kind != "cond" or not f.pol or not isinstance(f.xnode, ast.Compare) or len(f.xnode.ops) != 1 \
+                        or not isinstance(f.xnode.ops[0], ast.Eq):
+                    continue
+                for x, y in ((f.xnode.left, f.xnode.comparators[0]), (f.xnode.comparators[0], f.xnode.left)):
+                    if enum_is(P, m.module, y, "ReportVerify", "SUCCESS") and isinstance(x, ast.Attribute) and x.attr == "report" \
+                            and isinstance(x.value, ast.Call) and vf in P.call_targets(m, x.value, count=False):
+                        vcall = x.value
+            if vcall is not None:
                 ctx.ob("C03.verified-dispatch", m.short(), f"dispatch#{n}:report-success", True,
                        "dispatch guarded by verify(...).report == SUCCESS", loc)
-                ok_msg = "message=packet," in vfact[0] or vfact[0].startswith("self.verify_service.verify(SNVERIFYRequest(message=packet")
+                req = bind_call(vf, vcall).get(vf.params[1]) if len(vf.params) > 1 else None
+                msg = None
+                if isinstance(req, ast.Call):
+                    tg = [t for t in P.call_targets(m, req, count=False) if isinstance(t, ClassInfo)]
+                    if len(tg) == 1:
+                        msg = bind_fields(tg[0], req).get("message")
+                ok_msg = isinstance(msg, ast.Name) and msg.id in rx
                 ctx.ob("C03.verified-dispatch", m.short(), f"dispatch#{n}:verifies-received-bytes", ok_msg,
-                       "the verify request carries the received bytes (message=packet)", loc)
-                arg = norm(pretty(unparse(fl.expand(c.args[0], st)))) if c.args else ""
-                ok_plain = bool(re.fullmatch(r"self\.verify_service\.verify\(SNVERIFYRequest\(.*\)\)\.plain_message", arg))
+                       f"the verify request carries `{show(msg)}` as message; must be the received bytes ({'/'.join(rx) or 'no bytes parameter'})", loc)
+                arg = fl.expand(c.args[0], st) if c.args else None
+                ok_plain = isinstance(arg, ast.Attribute) and arg.attr == "plain_message" and unparse(arg.value) == unparse(vcall)
                 ctx.ob("C03.verified-dispatch", m.short(), f"dispatch#{n}:delivers-verified-bytes", ok_plain,
-                       f"dispatched bytes are `{arg[:90]}`; must be the plain_message of that same verify confirm", loc)
+                       f"dispatched bytes are `{show(arg)[:90]}`; must be the plain_message of that same verify confirm", loc)
             else:
+                insecure = sem.holds(fs, "self.mib.itsGnSecurity == GnSecurity.ENABLED", False)
                 ctx.ob("C03.unsecured-drop", m.short(), f"dispatch#{n}", insecure,
                        "common-header processing of an UNVERIFIED packet " +
                        ("only when itsGnSecurity != ENABLED" if insecure else
                         "is reachable while itsGnSecurity == ENABLED (no `security enabled -> drop` guard and no SUCCESS "
                         "report on this path): an unsecured packet would be delivered. Facts: " +
-                        "; ".join(("" if v else "not ") + k for k, v in conds.items() if "nh" in k or "Security" in k)[:300]),
+                        "; ".join(sorted(a for a in fs if "nh" in a or "Security" in a))[:300]),
                        loc)
     if n < 2:
         raise AnalysisError(f"C03: {n} dispatcher calls found (confirmed: 2)")
     # the verify call and the report test use the same confirm object by construction (expansion); verify_service None => drop
     psh = P.func(f"{ROUTER}.process_security_header")
-    fl = ctx.flows.get(psh)
-    vcalls = [c for c in P.calls_in(psh) if isinstance(c.func, ast.Attribute) and c.func.attr == "verify"]
+    vcalls = [c for c in P.calls_in(psh) if vf in P.call_targets(psh, c, count=False)]
     ctx.ob("C03.verified-dispatch", psh.short(), "single-verify", len(vcalls) == 1,
            f"{len(vcalls)} verify() call(s) in the secured-packet path", psh.loc)
 
     # ---- (3),(4) SUCCESS needs the signature check over the same message under a vouched ticket
-    vf = P.func(f"{VS}.verify")
     fl = ctx.flows.get(vf)
     sites = success_sites(ctx, vf)
     if not sites:
         raise AnalysisError("C03: no SUCCESS construction found in VerifyService.verify")
-    xroot = norm(XROOT)
+    rq = vf.params[1]
+    xroot = XROOT.replace("request.", rq + ".")
+    confirm = P.cls("security.sn_sap.SNVERIFYConfirm") if any(k.endswith("sn_sap.SNVERIFYConfirm") for k in P.classes) else None
     for i, c in enumerate(sites):
         st = fl.state_at(c)
         loc = f"{vf.module.rel}:{c.lineno}"
@@ -128,43 +209,53 @@ def run(ctx):
                "(cached / short-circuited / inverted check)", loc)
         if prim is None:
             continue
-        recv = norm(pretty(unparse(prim.func.value)))
-        ctx.ob("C03.success-needs-signature", con, f"success#{i}:backend", recv == "self.backend",
-               f"primitive invoked on `{recv}`", loc)
-        data = norm(pretty(unparse(kw_or_pos(prim, "data", 0))))
-        sig = norm(pretty(unparse(kw_or_pos(prim, "signature", 1))))
-        pk = norm(pretty(unparse(kw_or_pos(prim, "pk", 2))))
+        ctx.ob("C03.success-needs-signature", con, f"success#{i}:backend", dotted(prim.func.value) == "self.backend",
+               f"primitive invoked on `{show(prim.func.value)}`", loc)
+        b = _bind(prim, ("data", "signature", "pk"))
+        data, sig, pk = b.get("data"), b.get("signature"), b.get("pk")
         ctx.ob("C03.success-needs-signature", con, f"success#{i}:signed-bytes",
-               data == f"SECURITY_CODER.encode_to_be_signed_data({xroot}['tbsData'])",
-               f"verified bytes = `{data[:140]}`; must be the re-encoded tbsData of the received message", loc)
-        ctx.ob("C03.success-needs-signature", con, f"success#{i}:signature", sig == f"{xroot}['signature']",
-               f"signature = `{sig[:120]}`; must be the received message's signature", loc)
-        m = re.fullmatch(r"(authorization_ticket(?:@p?[0-9_]+)?)\.certificate\['toBeSigned'\]\['verifyKeyIndicator'\]\[1\]",
-                         norm(unparse(kw_or_pos(prim, "pk", 2))))
-        ctx.ob("C03.success-needs-signature", con, f"success#{i}:key", m is not None,
-               f"key = `{pk[:120]}`; must be the verification key of the resolved authorization ticket", loc)
-        plain = kw_or_pos(c, "plain_message", 5)
-        pm = norm(pretty(unparse(fl.expand(plain, st)))) if plain is not None else "<absent>"
+               data is not None and sem.same(data, f"SECURITY_CODER.encode_to_be_signed_data({xroot}['tbsData'])"),
+               f"verified bytes = `{show(data)[:140]}`; must be the re-encoded tbsData of the received message", loc)
+        ctx.ob("C03.success-needs-signature", con, f"success#{i}:signature", sig is not None and sem.same(sig, f"{xroot}['signature']"),
+               f"signature = `{show(sig)[:120]}`; must be the received message's signature", loc)
+        ticket, steps = access_path(pk) if pk is not None else (None, [])
+        key_ok = steps == [(".", "certificate"), ("[", "toBeSigned"), ("[", "verifyKeyIndicator"), ("[", 1)]
+        ctx.ob("C03.success-needs-signature", con, f"success#{i}:key", key_ok,
+               f"key = `{show(pk)[:120]}`; must be the verification key of the resolved authorization ticket", loc)
+        plain = bind_fields(confirm, c).get("plain_message") if confirm is not None else kw_or_pos(c, "plain_message", 5)
+        pm = fl.expand(plain, st) if plain is not None else None
         ctx.ob("C03.success-needs-signature", con, f"success#{i}:delivered-bytes",
-               pm == f"{xroot}['tbsData']['payload']['data']['content'][1]",
-               f"plain_message = `{pm[:140]}`; must be the payload inside the SAME signed tbsData", loc)
-        # ---- ticket facts
-        tok = m.group(1) if m else "authorization_ticket"
-        conds = {norm(f.xkey): f.pol for f in st.facts if f.kind == "cond"}
-        for need, txt in ((f"{tok}.verify(self.backend)", "ticket chain verified (Certificate.verify)"),
-                          (f"{tok}.is_authorization_ticket()", "signer is an authorization ticket"),):
-            ctx.ob("C03.signer-vouched", con, f"success#{i}:{need.split('.')[-1]}", conds.get(norm(need)) is True,
-                   f"SUCCESS requires `{pretty(need)}`: {txt}", loc)
-        ctx.ob("C03.signer-vouched", con, f"success#{i}:not-none", conds.get(norm(f"{tok} is None")) is False,
+               pm is not None and sem.same(pm, f"{xroot}['tbsData']['payload']['data']['content'][1]"),
+               f"plain_message = `{show(pm)[:140]}`; must be the payload inside the SAME signed tbsData", loc)
+        # ---- ticket facts: about the very object whose key was used
+        if not key_ok:
+            ticket = ast.Name(id="<no ticket>", ctx=ast.Load())
+        tk = unparse(ticket)
+        def holds_on_ticket(atom: str) -> bool:
+            return any(f.kind == "cond" and tk in f.xkey and atom in sem.atoms(f.xnode, f.pol) for f in st.facts)
+        t_verify = ast.Call(func=ast.Attribute(value=ticket, attr="verify", ctx=ast.Load()), args=[src("self.backend")], keywords=[])
+        t_verify_kw = ast.Call(func=ast.Attribute(value=ticket, attr="verify", ctx=ast.Load()), args=[],
+                               keywords=[ast.keyword(arg="backend", value=src("self.backend"))])
+        t_is_at = ast.Call(func=ast.Attribute(value=ticket, attr="is_authorization_ticket", ctx=ast.Load()), args=[], keywords=[])
+        ctx.ob("C03.signer-vouched", con, f"success#{i}:verify(self.backend)",
+               holds_on_ticket(sem.atoms(t_verify, True)[0]) or holds_on_ticket(sem.atoms(t_verify_kw, True)[0]),
+               f"SUCCESS requires `{show(t_verify)}`: ticket chain verified (Certificate.verify)", loc)
+        ctx.ob("C03.signer-vouched", con, f"success#{i}:is_authorization_ticket()", holds_on_ticket(sem.atoms(t_is_at, True)[0]),
+               f"SUCCESS requires `{show(t_is_at)}`: signer is an authorization ticket", loc)
+        not_none = sem.atoms(ast.Compare(left=ticket, ops=[ast.IsNot()], comparators=[ast.Constant(None)]), True)[0]
+        ctx.ob("C03.signer-vouched", con, f"success#{i}:not-none", holds_on_ticket(not_none) or holds_on_ticket(sem.atoms(ticket, True)[0]),
                "ticket is not None", loc)
-        defs = fl.reaching("authorization_ticket", st)
-        allowed = (f"self.certificate_library.verify_sequence_of_certificates({xroot}['signer'][1],self.backend)",
+        allowed = (f"self.certificate_library.verify_sequence_of_certificates({xroot}['signer'][1], self.backend)",
                    f"self.certificate_library.get_authorization_ticket_by_hashedid8({xroot}['signer'][1])", "None")
-        for d in defs:
-            v = norm(pretty(unparse(d.xvalue))) if d.xvalue is not None else "<opaque>"
-            ctx.ob("C03.signer-vouched", con, f"success#{i}:source:{v[:60]}", v in allowed,
-                   f"ticket candidate comes from `{v[:150]}`; only the certificate library's signer lookups on the message's "
-                   f"own signer field may provide it", f"{vf.module.rel}:{getattr(d.stmt, 'lineno', 0)}")
+        if isinstance(ticket, ast.Name) and ticket.id.split("@")[0] in st.defs:
+            cands = [(d.xvalue, getattr(d.stmt, "lineno", 0)) for d in fl.reaching(ticket.id.split("@")[0], st)]
+        else:
+            cands = [(ticket, c.lineno)]
+        for v, line in cands:
+            ok_src = v is not None and any(sem.same(v, a) for a in allowed)
+            ctx.ob("C03.signer-vouched", con, f"success#{i}:source:{sem.cx(v)[:60] if v is not None else '<opaque>'}", ok_src,
+                   f"ticket candidate comes from `{show(v)[:150]}`; only the certificate library's signer lookups on the message's "
+                   f"own signer field may provide it", f"{vf.module.rel}:{line}")
     ctx.floor("C03.success-needs-signature", 6)
     ctx.floor("C03.signer-vouched", 5)
 
@@ -172,7 +263,120 @@ def run(ctx):
     library_returns(ctx)
     # ---- (6),(7)
     SU.cert_verify_conjuncts(ctx, "C03.cert-verify")
-    SU.backend_primitive(ctx, "C03.backend")
+    backend_primitive(ctx, "C03.backend")
+
+
+# ---------------------------------------------------------------------------------------------------------------
+# (7) the ECDSA primitive: structural decision (argument binding of the library calls, every reaching definition)
+# ---------------------------------------------------------------------------------------------------------------
+def _bind(call: ast.Call, names: tuple) -> dict:
+    """Arguments of a call to an external library function bound to its documented parameter names."""
+    out = {}
+    for i, a in enumerate(call.args):
+        if isinstance(a, ast.Starred) or i >= len(names):
+            out["*"] = a
+            continue
+        out[names[i]] = a
+    for kw in call.keywords:
+        out[kw.arg if kw.arg else "**"] = kw.value
+    return out
+
+
+def _callee(e: ast.AST) -> str:
+    return (dotted(e.func) or "") if isinstance(e, ast.Call) else ""
+
+
+def _int_be(e: ast.AST, src: str) -> bool:
+    """`e` is int.from_bytes(<src>, 'big') (byte order positional or keyword)."""
+    if _callee(e) != "int.from_bytes":
+        return False
+    b = _bind(e, ("bytes", "byteorder"))
+    bo = b.get("byteorder")
+    return set(b) == {"bytes", "byteorder"} and sem.same(b["bytes"], src) and isinstance(bo, ast.Constant) and bo.value == "big"
+
+
+def _is_param(e: ast.AST, fi: FuncInfo, name: str) -> bool:
+    # expansion keeps a bare name only for a parameter that was never re-bound (re-bound locals carry a version token)
+    return isinstance(e, ast.Name) and e.id == name and name in fi.params
+
+
+def _verify_call_obligations(e: ast.AST, fi: FuncInfo) -> dict:
+    """Which parts of the truthy result are what the contract demands: {aspect: (ok, text)}."""
+    out = {}
+    is_verify = isinstance(e, ast.Call) and isinstance(e.func, ast.Attribute) and e.func.attr == "verify"
+    out["is-library-verify"] = (is_verify, f"`{pretty(unparse(e))[:100]}`")
+    if not is_verify:
+        return out
+    b = _bind(e, ("signature", "data", "hashfunc", "sigdecode", "allow_truncate"))
+    out["data"] = ("data" in b and _is_param(b["data"], fi, "data"),
+                   f"verified bytes = `{pretty(unparse(b['data']))[:80] if 'data' in b else '<absent>'}` (must be the caller's data)")
+    hf = b.get("hashfunc")
+    out["hash"] = (hf is not None and dotted(hf) == "hashlib.sha256" and fi.module.imports.get("hashlib") == ("mod", "hashlib"),
+                   f"hashfunc = `{unparse(hf) if hf is not None else '<library default: SHA-1>'}` (must be hashlib.sha256)")
+    extra = sorted(k for k in b if k not in ("signature", "data", "hashfunc", "sigdecode"))
+    sd = b.get("sigdecode")
+    sig = b.get("signature")
+    sig_ok = False
+    if _callee(sig).split(".")[-1] == "sigencode_string" and (sd is None or (dotted(sd) or "").split(".")[-1] == "sigdecode_string"):
+        sb = _bind(sig, ("r", "s", "order"))
+        sig_ok = set(sb) == {"r", "s", "order"} and _int_be(sb["r"], "signature[1]['rSig'][1]") and \
+            _int_be(sb["s"], "signature[1]['sSig']") and sem.same(sb["order"], "ecdsa.NIST256p.order")
+    out["signature"] = (sig_ok and not extra,
+                        f"signature = `{pretty(unparse(sig))[:150] if sig is not None else '<absent>'}`; must be the string encoding of "
+                        "(r, s) read big-endian from the caller's signature['rSig'][1] / ['sSig'] with the P-256 order, decoded "
+                        "by the matching string decoder" + (f"; unexpected arguments {extra}" if extra else ""))
+    key = e.func.value
+    key_ok = False
+    if _callee(key).endswith("VerifyingKey.from_public_point"):
+        kb = _bind(key, ("point", "curve", "hashfunc", "validate_point"))
+        pt = kb.get("point")
+        if set(kb) <= {"point", "curve", "hashfunc"} and "curve" in kb and sem.same(kb["curve"], "ecdsa.NIST256p") \
+                and _callee(pt).split(".")[-1] == "Point":
+            pb = _bind(pt, ("curve", "x", "y", "order"))
+            key_ok = set(pb) == {"curve", "x", "y", "order"} and sem.same(pb["curve"], "ecdsa.NIST256p.curve") and \
+                _int_be(pb["x"], "pk[1][1]['x']") and _int_be(pb["y"], "pk[1][1]['y']") and sem.same(pb["order"], "ecdsa.NIST256p.order")
+    out["key"] = (key_ok, f"verifying key = `{pretty(unparse(key))[:170]}`; must be the P-256 point (x, y) read big-endian from the "
+                          "caller's pk[1][1]['x'] / ['y']")
+    return out
+
+
+def backend_primitive(ctx, rule: str):
+    """PythonECDSABackend.verify_with_pk: every value it can return is either the constant False or the result of the
+    ecdsa library's VerifyingKey.verify over the caller's data, the caller's (r, s) and the caller's public point with
+    SHA-256.  Decided over every reaching definition of the returned expression (a result kept in a local counts)."""
+    P = ctx.prog
+    fi = P.func("security.ecdsa_backend.PythonECDSABackend.verify_with_pk")
+    fl = ctx.flows.get(fi)
+    rets = [(s, st) for k, s, st in fl.exits if k == "return"]
+    if not rets:
+        raise AnalysisError("verify_with_pk has no return")
+    if any(k == "fall" for k, s, st in fl.exits):
+        ctx.ob(rule, fi.short(), "fall-through", True, "falling off the end returns None (falsy)", fi.loc)
+    n_verify = 0
+    for j, (s, st) in enumerate(rets):
+        loc = f"{fi.module.rel}:{s.lineno}"
+        in_handler = any(k == "handler" for _, k in fl.enclosing_handlers(s))
+        alts = fl.alternatives(s.value, st) if s.value is not None else [ast.Constant(None)]
+        for a_i, alt in enumerate(alts):
+            tag = f"return#{j}" + (f"/def{a_i}" if len(alts) > 1 else "")
+            u = pretty(unparse(alt))
+            if isinstance(alt, ast.Constant) and alt.value is False:
+                ctx.ob(rule, fi.short(), f"{tag}:false", True, "returns False", loc)
+                continue
+            if in_handler:
+                ctx.ob(rule, fi.short(), f"{tag}:bad-signature", False,
+                       f"the exception handler returns `{u[:80]}` (must be False: a signature the library rejected)", loc)
+                continue
+            n_verify += 1
+            for aspect, (ok, text) in _verify_call_obligations(alt, fi).items():
+                ctx.ob(rule, fi.short(), f"{tag}:verify:{aspect}", ok,
+                       "a result other than False must be ecdsa VerifyingKey.verify(...) over the caller's data / signature / key "
+                       "with SHA-256: " + text, loc)
+    ctx.ob(rule, fi.short(), "some-real-check", n_verify >= 1,
+           f"{n_verify} returned value(s) are results of the library check (a primitive that can only answer False verifies nothing)", fi.loc)
+    ctx.floor(rule, 7)
+    # exceptions other than a rejected signature must not be turned into a truthy answer: handlers are covered above (every
+    # value returned from / assigned in a handler is one of the alternatives)
 
 
 def library_returns(ctx):
